@@ -7,6 +7,19 @@ namespace vs
 template <class FO>
 void VM<FO>::terminal(int tid, Op const& op)
 {
+  // a second terminal event (e.g. the same signal hitting another thread while the first handler is still flushing):
+  // the first one is the victim the parent judges; later ones only deliver their signal
+  static bool pre_written = false;
+  if (pre_written)
+  {
+    if (op.k == OP_RAISE || op.k == OP_FAULT)
+    {
+      ::raise(static_cast<int>(op.v[0]));
+    }
+    sim::park_forever();
+    return;
+  }
+  pre_written = true;
   std::ostringstream o;
   o << "terminal " << op.k << " " << op.v[0] << " " << tid << "\n";
   for (size_t i = 0; i < sinks.size(); ++i)
